@@ -4,6 +4,21 @@
 //! segfaults) is detected by EOF before the history's `e` line. The dying history is re-run alone in a
 //! fresh `--careful` child (flush after every line) to find the exact call that dies.
 use super::{hist_json, History};
+
+/// one history as the worker reads it: a JSON line and the number of calls it makes
+pub trait HistLine: Sync {
+    fn line(&self) -> String;
+    fn n_calls(&self) -> usize;
+}
+
+impl HistLine for History {
+    fn line(&self) -> String {
+        hist_json(self)
+    }
+    fn n_calls(&self) -> usize {
+        self.len()
+    }
+}
 use serde_json::Value;
 use std::io::{BufRead, BufReader, Write};
 use std::os::unix::process::ExitStatusExt;
@@ -26,6 +41,12 @@ pub enum RealResp {
     Trap { why: String },
     Dead,
     Bad(String),
+    /// `load_config` returned this (stream `emit-concrete`)
+    Cfg(bool),
+    /// the whole emitted module (stream `emit-concrete`, op `X`)
+    JsText(String),
+    /// the whole RESULT text (stream `emit-concrete`, op `Y`)
+    ResText(String),
 }
 
 impl RealResp {
@@ -39,6 +60,9 @@ impl RealResp {
             "js" => RealResp::Js(s(1), v.get(2).and_then(|x| x.as_u64()).unwrap_or(0)),
             "freed" => RealResp::Freed,
             "res" => RealResp::Res(s(1), s(2)),
+            "cfg" => RealResp::Cfg(v.get(1).and_then(|x| x.as_bool()).unwrap_or(false)),
+            "jst" => RealResp::JsText(s(1)),
+            "rest" => RealResp::ResText(s(1)),
             _ => RealResp::Bad(v.to_string()),
         }
     }
@@ -55,6 +79,9 @@ impl RealResp {
             RealResp::Trap { why } => json!(["trap", why]),
             RealResp::Dead => json!(["dead"]),
             RealResp::Bad(t) => json!(["bad", t]),
+            RealResp::Cfg(b) => json!(["cfg", b]),
+            RealResp::JsText(t) => json!(["jst", t]),
+            RealResp::ResText(t) => json!(["rest", t]),
         }
     }
     pub fn is_trap(&self) -> bool {
@@ -230,10 +257,10 @@ fn add_panic(acc: &mut Option<String>, m: String) {
 }
 
 /// run ONE history in a fresh `--careful` child; finds the exact call at which the child dies
-fn careful_run(cfg: &Cfg, h: &History, first_why: &str, st: &mut PoolStats) -> Vec<RealResp> {
+fn careful_run<H: HistLine>(cfg: &Cfg, h: &H, first_why: &str, st: &mut PoolStats) -> Vec<RealResp> {
     st.careful_runs += 1;
     let mut w = Worker::spawn(cfg, true, st);
-    w.send(format!("{}\n", hist_json(h)));
+    w.send(format!("{}\n", h.line()));
     w.tx.take(); // close input after the history
     let mut resps = vec![];
     let mut pmsg: Option<String> = None;
@@ -274,20 +301,20 @@ fn careful_run(cfg: &Cfg, h: &History, first_why: &str, st: &mut PoolStats) -> V
         why.push_str("no output for 20 s, killed; ");
     }
     why.push_str(&format!("worker {status}"));
-    if at >= h.len() {
+    if at >= h.n_calls() {
         why.push_str(" (after the last call: at thread exit, while the thread-locals were dropped)");
     }
     if !first_why.is_empty() {
         why.push_str(&format!(" [first run in the shared worker: {first_why}]"));
     }
     resps.push(RealResp::Trap { why });
-    while resps.len() < h.len() {
+    while resps.len() < h.n_calls() {
         resps.push(RealResp::Dead);
     }
     resps
 }
 
-fn run_slice(slot: &mut Option<Worker>, cfg: &Cfg, hs: &[History], st: &mut PoolStats) -> Vec<Vec<RealResp>> {
+fn run_slice<H: HistLine>(slot: &mut Option<Worker>, cfg: &Cfg, hs: &[H], st: &mut PoolStats) -> Vec<Vec<RealResp>> {
     let mut out: Vec<Vec<RealResp>> = Vec::with_capacity(hs.len());
     let mut i = 0;
     while i < hs.len() {
@@ -298,13 +325,13 @@ fn run_slice(slot: &mut Option<Worker>, cfg: &Cfg, hs: &[History], st: &mut Pool
         let w = slot.as_mut().unwrap();
         let mut text = String::new();
         for h in &hs[i..end] {
-            text.push_str(&hist_json(h));
+            text.push_str(&h.line());
             text.push('\n');
         }
         w.send(text);
         let mut died: Option<(usize, Option<String>, bool)> = None;
         'hist: for j in i..end {
-            let mut resps = Vec::with_capacity(hs[j].len());
+            let mut resps = Vec::with_capacity(hs[j].n_calls());
             let mut pmsg = None;
             loop {
                 match w.next_line() {
@@ -359,7 +386,7 @@ impl WorkerPool {
     }
 
     /// run every history on the real code (each on a fresh loader instance); answers in input order
-    pub fn run_histories(&mut self, hs: &[History]) -> Vec<Vec<RealResp>> {
+    pub fn run_histories<H: HistLine>(&mut self, hs: &[H]) -> Vec<Vec<RealResp>> {
         if hs.is_empty() {
             return vec![];
         }
